@@ -83,7 +83,7 @@ def nontrivial(f):
 
 
 def classify(f, io):
-    k = f[0] + (":" + f[2] if f[0] in ("S", "H", "V", "R", "PM", "PW", "PE") else "")
+    k = f[0] + (":" + f[2] if f[0] in ("S", "H", "V", "VC", "R", "PM", "PW", "PE") else "")
     if f[0] == "PW":
         return k + ":wf" + f[4] + ":rt" + (io[-1] if io else "none")
     return k + ":" + (io[0] if io else "none")
@@ -110,11 +110,24 @@ def predicate(f, io):
         if io[0] not in ("ok", "err"):
             return False, "unexpected outcome " + io[0]
         # positive control: a legal handshake of the scripted peer must complete, unless the ClientAuth policy forbids it
+        cfg = _kv(f[4])
+        if "cm" in cfg:
+            cm = "" if cfg["cm"] == "-" else cfg["cm"]
+            has_null = "00" in [cm[i:i + 2] for i in range(0, len(cm), 2)]
+            if _r_legal(f) and (io[0] == "ok") != has_null:
+                return False, "honest handshake with compression methods [%s] %s" % (cfg["cm"], "did not complete" if has_null else "completed")
+            return True, ""
         if _r_legal(f):
-            cfg = _kv(f[4])
             must_fail = f[2] in ("sg", "sa", "st") and int(cfg["auth"]) in (2, 4) and cfg["cc"] == "0"
             if (io[0] == "ok") == must_fail:
                 return False, "control: a legal handshake %s (%s)" % ("completed against the ClientAuth policy" if must_fail else "did not complete", f[6])
+        return True, ""
+    if op == "VC":
+        # a ClientHello (version and suites acceptable to this server) is answered iff its compression list contains 0
+        comp = "" if f[5] == "-" else f[5]
+        has_null = "00" in [comp[i:i + 2] for i in range(0, len(comp), 2)]
+        if (io[0] == "acc") != has_null:
+            return False, "ClientHello with compression methods [%s] %s" % (f[5], "refused although it offers null compression" if has_null else "answered although it does not offer null compression")
         return True, ""
     if op == "V":
         # version gate, stated without the model: a ClientHello version that is not implemented is never answered with a
@@ -171,16 +184,4 @@ def same(f, io, mo):
     return False
 
 
-def _reneg_plaintext_finished(f, io):
-    """finding c15-reneg-client-plaintext-finished: a standard-TLS client with Config.Renegotiation enabled completes on
-    a Finished sent in the clear where the ChangeCipherSpec is due (readRecord lets a handshake record through while
-    ChangeCipherSpec is wanted; readFinished only looks at c.in.err).  Exactly: R case, victim ct, rn=1|2, honest first
-    flight, second flight starting with FIN (no ChangeCipherSpec before it), implementation ok."""
-    if f[0] != "R" or f[2] != "ct" or not io or io[0] != "ok":
-        return False
-    cfg = _kv(f[4])
-    fl = f[6].split("/")
-    return cfg.get("rn") in ("1", "2") and len(fl) == 2 and fl[1].split("|")[0] == "FIN"
-
-
-FINDING_MATCHERS = {"c15-reneg-client-plaintext-finished": _reneg_plaintext_finished}
+FINDING_MATCHERS = {}
